@@ -22,17 +22,20 @@ vars == <<live, arrow, flag, act, hist, diag, sname>>
 SchedVal(s, i) == CASE s = "inc" -> i \div 2
                     [] s = "dec" -> 50 - ((i + 1) \div 2)
                     [] s = "mix" -> 3 * ((i + 1) \div 3)
+                    [] s = "dinf" -> IF i < 2 THEN INF ELSE 40 - i    \* decreasing from +infinity
 ValSeq(s) == [i \in 0..(arrow - 1) |-> SchedVal(s, i)]
-FV(i) == [inc |-> SchedVal("inc", i), dec |-> SchedVal("dec", i), mix |-> SchedVal("mix", i)]
+FV(i) == [inc |-> SchedVal("inc", i), dec |-> SchedVal("dec", i), mix |-> SchedVal("mix", i), dinf |-> SchedVal("dinf", i)]
 
 Obs ==
-  LET vi == ValSeq("inc")  vd == ValSeq("dec")  vm == ValSeq("mix") IN
+  LET vi == ValSeq("inc")  vd == ValSeq("dec")  vm == ValSeq("mix")  vf == ValSeq("dinf") IN
   [arrow |-> arrow,
    open_set |-> Open,
    diag_set |-> diag,
    f_inc_set |-> FClosed(diag, vi), o_inc_set |-> FOpen(Open, vi),
    f_dec_set |-> FClosed(diag, vd), o_dec_set |-> FOpen(Open, vd),
    f_mix_set |-> FClosed(diag, vm), o_mix_set |-> FOpen(Open, vm),
+   f_dinf_set |-> FClosed(diag, vf), o_dinf_set |-> FOpen(Open, vf),
+   sd_dinf_m1_set |-> SDiagram(diag, Open, vf, -1, 0, INF),
    si_m1_set |-> SIndex(diag, -1), si_1_set |-> SIndex(diag, 1), si_2_set |-> SIndex(diag, 2),
    sd_inc_m1_set |-> SDiagram(diag, Open, vi, -1, 0, INF),
    sd_dec_m1_set |-> SDiagram(diag, Open, vd, -1, 0, INF),
